@@ -199,6 +199,10 @@ class Norm:
             # copy/move/converting construction of a smart pointer from a pointer: identity
             if is_smart(self.t(n)) and len(args) == 1:
                 return args[0]
+            if is_smart(self.t(n)) and len(args) == 2 and args[1][0] == 'bool':
+                return args[0]      # boost::intrusive_ptr(p, add_ref)
+            if len(args) == 1 and 'iterator' in q.rsplit('::', 1)[-1]:
+                return args[0]      # iterator -> const_iterator conversions
             if is_smart(self.t(n)) and len(args) == 0:
                 return ('null',)
             return ('ctor', q, args)
